@@ -1,5 +1,7 @@
 #![allow(clippy::type_complexity)]
-use std::{cell::Cell, cell::RefCell, collections::VecDeque, fmt, num, rc::Rc};
+use std::task::{Context, Poll, Waker};
+use std::{cell::Cell, cell::RefCell, collections::VecDeque, fmt, future::Future, num};
+use std::{pin::Pin, rc::Rc};
 
 use ntex_bytes::{BytePages, Bytes, BytesMut};
 use ntex_codec::{Decoder, Encoder};
@@ -585,6 +587,20 @@ impl MqttShared {
         }
     }
 
+    /// Wake up next waiter if send window has a free slot
+    pub(super) fn wake_waiter(&self) {
+        let mut queues = self.queues.borrow_mut();
+        if queues.inflight.len() + queues.received < self.cap.get()
+            && !self.flags.get().contains(Flags::WRB_ENABLED)
+        {
+            while let Some(tx) = queues.waiters.pop_front() {
+                if tx.send(()).is_ok() {
+                    break;
+                }
+            }
+        }
+    }
+
     /// Register ack in response channel
     pub(super) fn release_publish(
         &self,
@@ -608,6 +624,54 @@ impl MqttShared {
                 Ok(rx)
             }
             Err(e) => Err(SendPacketError::Encode(e)),
+        }
+    }
+}
+
+/// Waits for a free slot in the send window.
+///
+/// Waiter gets notified when a slot becomes available, but the slot could be
+/// taken by other sender before the waiter is polled; in that case it is queued
+/// again. If notified waiter is dropped, notification is passed to the next one.
+pub(super) struct Waiter {
+    shared: Rc<MqttShared>,
+    rx: Option<pool::Receiver<()>>,
+}
+
+impl Waiter {
+    pub(super) fn new(shared: &Rc<MqttShared>, rx: pool::Receiver<()>) -> Self {
+        Self { shared: shared.clone(), rx: Some(rx) }
+    }
+}
+
+impl Future for Waiter {
+    type Output = Result<(), SendPacketError>;
+
+    fn poll(mut self: Pin<&mut Self>, cx: &mut Context<'_>) -> Poll<Self::Output> {
+        loop {
+            let Some(rx) = self.rx.as_ref() else {
+                return Poll::Ready(Ok(()));
+            };
+            match rx.poll_recv(cx) {
+                Poll::Pending => return Poll::Pending,
+                Poll::Ready(Err(_)) => {
+                    self.rx = None;
+                    return Poll::Ready(Err(SendPacketError::Disconnected));
+                }
+                Poll::Ready(Ok(())) => {
+                    self.rx = self.shared.wait_readiness();
+                }
+            }
+        }
+    }
+}
+
+impl Drop for Waiter {
+    fn drop(&mut self) {
+        if let Some(rx) = self.rx.take()
+            && let Poll::Ready(Ok(())) = rx.poll_recv(&mut Context::from_waker(Waker::noop()))
+        {
+            self.shared.wake_waiter();
         }
     }
 }
